@@ -423,6 +423,9 @@ func lhScenario(prop string, seed uint64) *core.Scenario {
 			if r.Chance(1, 5) {
 				op.ChunkSeed = r.Uint64() | 2
 			}
+			if h := core.Mix(seed, uint64(i)+77); op.Text == "" && len(op.Rules) >= 2 && h%3 == 0 {
+				op.Multi = 1 + int((h>>8)%uint64(len(op.Rules)-1)) // derived, not drawn: the rest of the stream is unchanged
+			}
 			ex.Ops = append(ex.Ops, op)
 		case prop == "C17" && x < 70:
 			nr := r.Range(1, 2)
